@@ -683,7 +683,7 @@ func genRshScript(r *hx.Rng, i int) rshScript {
 			add(rshOp{kind: "DE"[r.Intn(2)], n: js[r.Intn(len(js))]})
 		case x < 71 && nextK > 0:
 			add(rshOp{kind: "TF"[r.Intn(2)], n: r.Intn(nextK)}) // possibly an ended request: ignored
-		case x < 96 && (len(ks) > 0 || len(js) > 0 || x > 90):
+		case x < 96 && updates < 4 && (len(ks) > 0 || len(js) > 0 || x > 90): // at most 4 updates: the driver's closure heaps make a line cost ~12x per update
 			update()
 			updates++
 		}
